@@ -155,7 +155,10 @@ class Prop:
                     add(cfg, [ARR(OPEN(rh)), SEL, TICK(239), SEL, TICK(1), SEL, SEL])
                     add(cfg, [TICK(239), SEL, TICK(1), SEL, SEL])
                     add(cfg, [ARR(OPEN(rh), KA), SEL, ('pending',), SEL, TICK(h // 3), SEL, ('pending',), SEL, SEL])
-        nrand = 600 if tier == 'quick' else 6000
+                    # an UPDATE sent restarts the keepalive interval (Established only)
+                    add(cfg, [ARR(OPEN(rh), KA), SEL, TICK(1), ('pending',), SEL, TICK(max(h // 3, 1) - 1), SEL, TICK(1), SEL, SEL])
+                    add(cfg, [ARR(OPEN(rh)), SEL, TICK(1), ('pending',), SEL, ARR(KA), TICK(1), SEL, TICK(1), ('pending',), SEL])
+        nrand = 2500 if tier == 'quick' else 30000
         for _ in range(nrand):
             cases.append(self.random_case(rng))
         return cases
@@ -200,6 +203,7 @@ class Prop:
                 if rng.random() < 0.7: evs.append(SEL)
             elif x < 0.86:
                 evs.append(('pending',))
+                if rng.random() < 0.6: evs.append(SEL)
             elif x < 0.89:
                 evs.append(('fin',))
             elif x < 0.92:
